@@ -93,13 +93,13 @@ def outReq (cache : Nat → Rat) (c r : Nat) : Rat :=
 
 def rescale (t : Rat) : Rat := if t > 1 then 1 / t else 1
 
-/-- flows through parameter-driven links out of ordinary, timed and source compartments (flush links excluded) -/
+/-- flows through parameter-driven links out of ordinary, timed and source compartments (flush links excluded).
+    An ordinary compartment is the one-row case of a timed one (it has neither timed links nor a flush link). -/
 def baseFlow (cache : Nat → Rat) (x : Stock) (l r : Nat) : Rat :=
   let c := net.src l
   match net.kind c with
   | .source => if r = 0 then cache l else 0
-  | .normal => if r = 0 ∧ !(net.isFlush l) then cache l * (rescale (outReq net cache c 0) * x c 0) else 0
-  | .timed =>
+  | .normal | .timed =>
       if r < net.nrows c ∧ acts net l r then cache l * (rescale (outReq net cache c r) * x c r) else 0
   | _ => 0
 
